@@ -39,14 +39,24 @@ def wbBurst (every : Nat) : Nat → UInt64 → Nat × UInt64
     let (s', z) := splitmix s
     if z.toNat % every == 0 then let (k, s'') := wbBurst every fuel s'; (k + 1, s'') else (0, s')
 
-/-- insert "no data yet" items in front of the items marked as allowed, then possibly one at the end -/
-def schedule {α : Type} (wb : α) (every : Nat) : UInt64 → List (α × Bool) → List α
-  | s, [] => let (_, z) := splitmix s; if z.toNat % 2 == 0 then [wb] else []
-  | s, (it, allowed) :: t =>
+/-- insert "no data yet" items in front of the items marked as allowed, then possibly one at the end; `long = some (j, l)`:
+a long idle gap of `l` such items goes in front of the first allowed item at or after position `j` (`i` counts items) -/
+def scheduleFrom {α : Type} (wb : α) (every : Nat) : Option (Nat × Nat) → Nat → UInt64 → List (α × Bool) → List α
+  | _, _, s, [] => let (_, z) := splitmix s; if z.toNat % 2 == 0 then [wb] else []
+  | long, i, s, (it, allowed) :: t =>
     if allowed then
+      let (gap, long') := match long with
+        | some (j, l) => if i ≥ j then (l, none) else (0, long)
+        | none => (0, none)
       let (k, s') := wbBurst every 8 s
-      List.replicate k wb ++ it :: schedule wb every s' t
-    else it :: schedule wb every s t
+      List.replicate gap wb ++ List.replicate k wb ++ it :: scheduleFrom wb every long' (i + 1) s' t
+    else it :: scheduleFrom wb every long (i + 1) s t
+
+/-- the harness's `schedule`: one seed in five carries a long idle gap (24..1000 items) at a seed-derived position -/
+def schedule {α : Type} (wb : α) (every : Nat) (seed : UInt64) (items : List (α × Bool)) : List α :=
+  let sd := seed.toNat
+  let long := if sd % 5 == 0 && !items.isEmpty then some ((sd / 40) % items.length, [24, 25, 32, 64, 100, 256, 300, 1000].getD ((sd / 5) % 8) 24) else none
+  scheduleFrom wb every long 0 seed items
 
 /-- which bytes of a wire made of whole link frames are delimiters (`none`: a delimiter is expected,
 `some none`: the length byte, `some (some k)`: `k` body bytes to go) -/
